@@ -284,6 +284,7 @@ def replays(failed):
     yield ("\\r is CR and \\n is LF", 'print("a' + bs + 'rb" == "a' + bs + 'x0db")\nprint("a' + bs + 'nb" == "a' + bs + 'x0ab")\nprint("' + bs + 'r" == "' + bs + 'n")\n',
            exp("true\ntrue\nfalse\n"))
     yield ("hex escapes are base 16", 'print("' + bs + 'x4a" == "J")\n', exp("true\n"))
+    yield ("hex digits may be upper case", 'print("' + bs + 'x4A' + bs + 'x7E" == "J~")\n', exp("true\n"))
     yield ("an unknown escape is an error at that character", 'print("' + bs + 't")\n', exp(err=":1:9: 't' is not a valid escape character"))
     yield ("an invalid hex digit is an error at that character", 'print("' + bs + 'x4g")\n', exp(err=":1:11: 'g' is not a valid hex character"))
     yield ("an unescaped dollar in a plain string is an error at that character", 'print("a$b")\n', exp(err=":1:9:"))
